@@ -74,6 +74,8 @@ def cases(tier: str) -> List[Dict[str, Any]]:
                     c = D.make_case(h, second, sch, w, row_order=ro)
                     if c:
                         out.append(c)
+    # the data of the 9 inputs bundled with RP2, every row given a unique id
+    out += D.bundled_cases(["rp2_full_report"], methods=("fifo",) if tier == "quick" else ("fifo", "hifo"), mode="few" if tier == "quick" else "all")
     return out
 
 
